@@ -13,8 +13,16 @@ where
         n => n,
     };
 
-    buf.resize(block_size, 0);
-    reader.read_exact(buf)?;
+    // The block size is not trusted to preallocate the buffer: it grows as the data is read.
+    buf.clear();
+    let len = reader.take(block_size as u64).read_to_end(buf)?;
+
+    if len < block_size {
+        return Err(io::Error::new(
+            io::ErrorKind::UnexpectedEof,
+            "failed to fill whole buffer",
+        ));
+    }
 
     validate(buf)?;
 
@@ -96,6 +104,57 @@ pub(crate) fn validate(src: &[u8]) -> io::Result<()> {
 #[cfg(test)]
 mod tests {
     use super::*;
+
+    #[test]
+    fn test_read_record() -> io::Result<()> {
+        let mut data = vec![0x22, 0x00, 0x00, 0x00]; // block_size = 34
+        data.extend([
+            0xff, 0xff, 0xff, 0xff, // ref_id = -1
+            0xff, 0xff, 0xff, 0xff, // pos = -1
+            0x02, // l_read_name = 2
+            0xff, // mapq = 255
+            0x48, 0x12, // bin = 4680
+            0x00, 0x00, // n_cigar_op = 0
+            0x04, 0x00, // flag = 4
+            0x00, 0x00, 0x00, 0x00, // l_seq = 0
+            0xff, 0xff, 0xff, 0xff, // next_ref_id = -1
+            0xff, 0xff, 0xff, 0xff, // next_pos = -1
+            0x00, 0x00, 0x00, 0x00, // tlen = 0
+            b'*', 0x00, // read_name = "*\x00"
+        ]);
+
+        let mut buf = vec![0xff; 64];
+
+        let mut reader = &data[..];
+        assert_eq!(read_record(&mut reader, &mut buf)?, 34);
+        assert_eq!(buf, &data[4..]);
+        assert!(reader.is_empty());
+
+        assert_eq!(read_record(&mut reader, &mut buf)?, 0);
+
+        let mut reader = &data[..data.len() - 1];
+        assert!(matches!(
+            read_record(&mut reader, &mut buf),
+            Err(e) if e.kind() == io::ErrorKind::UnexpectedEof
+        ));
+
+        Ok(())
+    }
+
+    #[test]
+    fn test_read_record_with_an_unsatisfiable_block_size() {
+        let data = [
+            0xff, 0xff, 0xff, 0xff, // block_size = 4294967295
+            0xff, 0xff, 0xff, 0xff, // ref_id = -1
+        ];
+
+        let mut buf = Vec::new();
+
+        assert!(matches!(
+            read_record(&mut &data[..], &mut buf),
+            Err(e) if e.kind() == io::ErrorKind::UnexpectedEof
+        ));
+    }
 
     #[test]
     fn test_read_block_size() -> io::Result<()> {
